@@ -189,7 +189,9 @@ def run(R):
         lim2 = (12159) ** 2
         lim1 = (Q // 2) ** 2
         # one sum over the 2N squares of both vectors (`s1.iter().chain(s2.iter())`) is the same quantity
-        chained = (len(sums) == 1 and need <= sums[0][1] and sums[0][2] in ((2 * N, 2 * N), None) and sums[0][0][0] >= 0 and sums[0][0][1] <= max(lim1, lim2))
+        # (withdrawn: a relaxation that accepted one chained sum of 2N squares also accepted a seeded change that takes the
+        # squares of the REDUCED representatives of s2 in such a chain — the two cannot be told apart by ranges and labels)
+        chained = False
         if chained:
             R.ok("C02-ingr", vsite + " ||s1||^2 + ||s2||^2", f"one sum over {2 * N} squares (both vectors chained), each in {sums[0][0]}, depending on all four inputs", key=f"s2|{N}")
             R.ok("C02-ingr", vsite + " ||s1||^2", "(part of the chained sum)", key=f"s1|{N}")
